@@ -173,7 +173,7 @@ static sqf::runtime::runtime::result execute_do(sqf::runtime::runtime& runtime, 
 
         auto instruction = frame.current();
         if (runtime.configuration().max_runtime != std::chrono::milliseconds::zero() &&
-            runtime.configuration().max_runtime + runtime.runtime_timestamp() < std::chrono::system_clock::now())
+            runtime.configuration().max_runtime + runtime.run_timestamp() < std::chrono::system_clock::now())
         {
 #ifdef DF__SQF_RUNTIME__ASSEMBLY_DEBUG_ON_EXECUTE
             std::cout << "\x1B[33m[ASSEMBLY ASSERT]\033[0m" <<
@@ -183,7 +183,10 @@ static sqf::runtime::runtime::result execute_do(sqf::runtime::runtime& runtime, 
 #endif // DF__SQF_RUNTIME__ASSEMBLY_DEBUG_ON_EXECUTE
             runtime.__logmsg(logmessage::runtime::MaximumRuntimeReached((*instruction)->diag_info(), runtime.configuration().max_runtime));
             runtime.exit(0);
-            return sqf::runtime::runtime::result::ok;
+            // The run did not complete: report it as failed, and do not leave the error state behind
+            runtime_error = false;
+            runtime.log_messages.clear();
+            return sqf::runtime::runtime::result::runtime_error;
         }
 
         // Check if breakpoint was hit
@@ -306,6 +309,7 @@ sqf::runtime::runtime::result sqf::runtime::runtime::execute(sqf::runtime::runti
     case action::leave_scope:
         if (m_run_atomic.compare_exchange_weak(expected, true, std::memory_order::memory_order_seq_cst, std::memory_order::memory_order_seq_cst))
         {
+            begin_run_if_empty();
             m_is_exit_requested = false;
             m_is_halt_requested = false;
             auto scopeNum = m_context_active->frames_size() - 1;
@@ -360,6 +364,7 @@ sqf::runtime::runtime::result sqf::runtime::runtime::execute(sqf::runtime::runti
     case action::start:
         if (m_run_atomic.compare_exchange_weak(expected, true, std::memory_order::memory_order_seq_cst, std::memory_order::memory_order_seq_cst))
         {
+            begin_run_if_empty();
             m_is_exit_requested = false;
             m_is_halt_requested = false;
             m_state = state::running;
@@ -465,6 +470,7 @@ sqf::runtime::runtime::result sqf::runtime::runtime::execute(sqf::runtime::runti
     case action::assembly_step:
         if (m_run_atomic.compare_exchange_weak(expected, true, std::memory_order::memory_order_seq_cst, std::memory_order::memory_order_seq_cst))
         {
+            begin_run_if_empty();
             m_is_exit_requested = false;
             m_is_halt_requested = false;
             m_state = state::running;
@@ -505,6 +511,7 @@ sqf::runtime::runtime::result sqf::runtime::runtime::execute(sqf::runtime::runti
     case action::line_step:
         if (m_run_atomic.compare_exchange_weak(expected, true, std::memory_order::memory_order_seq_cst, std::memory_order::memory_order_seq_cst))
         {
+            begin_run_if_empty();
             m_is_exit_requested = false;
             m_is_halt_requested = false;
             bool success;
